@@ -43,9 +43,22 @@ func derefPointers(info *types.Info, body *ast.BlockStmt, onCopy func(old, new a
 		}
 		return nil
 	}
-	target := map[*types.Var]ast.Expr{}
-	binding := map[ast.Stmt]*types.Var{}
+	// candidates: pointer locals bound once
+	//   kind 1  p := &x.f.g      p denotes the variable path
+	//   kind 2  p := &T{...}     p denotes a fresh record (the state of a small type built by its
+	//                            constructor); the view gives the record a value variable
+	//   kind 3  p := q           another name of pointer q (the receiver binding of an inlined method)
+	type ptrInfo struct {
+		kind int
+		path ast.Expr
+		lit  *ast.CompositeLit
+		src  *types.Var
+		stmt *ast.AssignStmt
+		val  *types.Var
+	}
+	cands := map[*types.Var]*ptrInfo{}
 	ndefs := map[*types.Var]int{}
+	ranged := map[*types.Var]bool{}
 	ast.Inspect(body, func(n ast.Node) bool {
 		switch st := n.(type) {
 		case *ast.AssignStmt:
@@ -54,14 +67,37 @@ func derefPointers(info *types.Info, body *ast.BlockStmt, onCopy func(old, new a
 				if p == nil {
 					continue
 				}
+				ndefs[p]++
+				if st.Tok != token.ASSIGN && st.Tok != token.DEFINE {
+					ndefs[p]++ // op-assignment
+				}
 				if _, isPtr := p.Type().Underlying().(*types.Pointer); !isPtr {
+					// kind 4: p := q, another name of a value that is never written again (the parameter
+					// binding of an inlined helper whose argument is a variable)
+					if len(st.Lhs) == 1 && len(st.Rhs) == 1 && st.Tok == token.DEFINE {
+						if q := local(st.Rhs[0]); q != nil && q != p && types.Identical(q.Type(), p.Type()) {
+							if _, isId := ast.Unparen(st.Rhs[0]).(*ast.Ident); isId {
+								cands[p] = &ptrInfo{kind: 4, src: q, stmt: st}
+							}
+						}
+					}
 					continue
 				}
-				ndefs[p]++
-				if len(st.Lhs) == 1 && len(st.Rhs) == 1 && st.Tok == token.DEFINE && i == 0 {
-					if u, ok := ast.Unparen(st.Rhs[0]).(*ast.UnaryExpr); ok && u.Op == token.AND && base(u.X) != nil {
-						target[p] = u.X
-						binding[st] = p
+				if len(st.Lhs) != 1 || len(st.Rhs) != 1 || st.Tok != token.DEFINE || i != 0 {
+					continue
+				}
+				rhs := ast.Unparen(st.Rhs[0])
+				if u, ok := rhs.(*ast.UnaryExpr); ok && u.Op == token.AND {
+					if lit, isLit := ast.Unparen(u.X).(*ast.CompositeLit); isLit {
+						if _, isStruct := info.TypeOf(lit).Underlying().(*types.Struct); isStruct {
+							cands[p] = &ptrInfo{kind: 2, lit: lit, stmt: st}
+						}
+					} else if base(u.X) != nil {
+						cands[p] = &ptrInfo{kind: 1, path: u.X, stmt: st}
+					}
+				} else if q := local(rhs); q != nil && q != p {
+					if _, isPtr := q.Type().Underlying().(*types.Pointer); isPtr && types.Identical(q.Type(), p.Type()) {
+						cands[p] = &ptrInfo{kind: 3, src: q, stmt: st}
 					}
 				}
 			}
@@ -75,7 +111,8 @@ func derefPointers(info *types.Info, body *ast.BlockStmt, onCopy func(old, new a
 			for _, e := range []ast.Expr{st.Key, st.Value} {
 				if e != nil {
 					if p := local(e); p != nil {
-						ndefs[p] += 2
+						ndefs[p]++
+						ranged[p] = true
 					}
 				}
 			}
@@ -83,81 +120,164 @@ func derefPointers(info *types.Info, body *ast.BlockStmt, onCopy func(old, new a
 			if p := local(st.X); p != nil {
 				ndefs[p] += 2
 			}
+		case *ast.UnaryExpr:
+			if st.Op == token.AND {
+				if p := local(st.X); p != nil {
+					ndefs[p] += 2 // &p: may be written through the pointer
+				}
+			}
 		}
 		return true
 	})
-	for p := range target {
-		if ndefs[p] != 1 {
-			delete(target, p)
+	for p, ci := range cands {
+		if ndefs[p] != 1 || ranged[p] {
+			delete(cands, p)
+			continue
+		}
+		// the value a name stands for must not change while the name is in use: it is never written
+		// after its definition (a range variable is written by its loop only, and the name lives inside
+		// one iteration)
+		if ci.kind == 4 && ndefs[ci.src] > 1 {
+			delete(cands, p)
 		}
 	}
-	if len(target) == 0 {
+	if len(cands) == 0 {
 		return body
 	}
-	// every use is a dereference
-	var stack []ast.Node
-	ast.Inspect(body, func(n ast.Node) bool {
-		if n == nil {
-			stack = stack[:len(stack)-1]
-			return true
-		}
-		stack = append(stack, n)
-		id, ok := n.(*ast.Ident)
-		if !ok {
-			return true
-		}
-		p, isVar := info.Uses[id].(*types.Var)
-		if !isVar || target[p] == nil {
-			return true
-		}
-		k := len(stack) - 2
-		child := ast.Node(id)
-		for k >= 0 {
-			if _, isParen := stack[k].(*ast.ParenExpr); !isParen {
-				break
+	// every use is a dereference, or the right-hand side of the binding of another name
+	for changed := true; changed; {
+		changed = false
+		var stack []ast.Node
+		ast.Inspect(body, func(n ast.Node) bool {
+			if n == nil {
+				stack = stack[:len(stack)-1]
+				return true
 			}
-			child = stack[k]
-			k--
-		}
-		okUse := false
-		if k >= 0 {
-			switch par := stack[k].(type) {
-			case *ast.StarExpr:
-				okUse = par.X == child
-			case *ast.SelectorExpr:
-				if par.X == child {
-					if f, isField := info.Uses[par.Sel].(*types.Var); isField && f.IsField() {
-						okUse = true
+			stack = append(stack, n)
+			id, ok := n.(*ast.Ident)
+			if !ok {
+				return true
+			}
+			p, isVar := info.Uses[id].(*types.Var)
+			if !isVar || cands[p] == nil {
+				return true
+			}
+			k := len(stack) - 2
+			child := ast.Node(id)
+			for k >= 0 {
+				if _, isParen := stack[k].(*ast.ParenExpr); !isParen {
+					break
+				}
+				child = stack[k]
+				k--
+			}
+			okUse := cands[p].kind == 4 // a value name may be read anywhere
+			if k >= 0 && !okUse {
+				switch par := stack[k].(type) {
+				case *ast.StarExpr:
+					okUse = par.X == child
+				case *ast.SelectorExpr:
+					if par.X == child {
+						if f, isField := info.Uses[par.Sel].(*types.Var); isField && f.IsField() {
+							okUse = true
+						}
+					}
+				case *ast.AssignStmt:
+					if len(par.Lhs) == 1 && len(par.Rhs) == 1 && par.Rhs[0] == child {
+						if r := local(par.Lhs[0]); r != nil && cands[r] != nil && cands[r].kind == 3 && cands[r].src == p && cands[r].stmt == par {
+							okUse = true
+						}
+						// renamed by a plain alias that itself is only a name (kind 4 of a kind 4)
+						if r := local(par.Lhs[0]); r != nil && cands[r] != nil && cands[r].kind == 4 && cands[r].src == p && cands[r].stmt == par && cands[p].kind == 4 {
+							okUse = true
+						}
 					}
 				}
 			}
+			if !okUse {
+				// another name of a pointer that is used as a pointer (handed on, compared): still a
+				// plain rename when the pointer it names keeps its value
+				if ci := cands[p]; ci.kind == 3 && ndefs[ci.src] <= 1 {
+					ci.kind = 4
+				} else {
+					delete(cands, p)
+				}
+				changed = true
+			}
+			return true
+		})
+		// another name of a pointer that is not itself written out needs that pointer to keep its value
+		for p, ci := range cands {
+			if ci.kind == 3 && cands[ci.src] == nil && (ndefs[ci.src] > 1 || ranged[ci.src]) {
+				delete(cands, p)
+				changed = true
+			}
 		}
-		if !okUse {
-			delete(target, p)
-		}
-		return true
-	})
-	if len(target) == 0 {
+	}
+	if len(cands) == 0 {
 		return body
+	}
+	pkgOf := func(v *types.Var) *types.Package { return v.Pkg() }
+	for p, ci := range cands {
+		if ci.kind == 2 {
+			ci.val = types.NewVar(p.Pos(), pkgOf(p), p.Name()+"$v", p.Type().Underlying().(*types.Pointer).Elem())
+		}
 	}
 	cl := &cloner{info: info}
 	plain := &cloner{info: info}
+	// what p stands for at pos: a value expression (value=true) or another pointer
+	var resolve func(p *types.Var, pos token.Pos, depth int) (ast.Expr, bool)
+	resolve = func(p *types.Var, pos token.Pos, depth int) (ast.Expr, bool) {
+		ci := cands[p]
+		switch ci.kind {
+		case 1:
+			return moveTo(plain.clone(ci.path), pos).(ast.Expr), true
+		case 2:
+			id := &ast.Ident{NamePos: pos, Name: ci.val.Name()}
+			info.Uses[id] = ci.val
+			return id, true
+		default:
+			if cands[ci.src] != nil && depth > 0 && (cands[ci.src].kind == ci.kind || ci.kind == 4 && cands[ci.src].kind == 4) {
+				return resolve(ci.src, pos, depth-1)
+			}
+			if ci.kind == 3 && cands[ci.src] != nil && depth > 0 {
+				return resolve(ci.src, pos, depth-1)
+			}
+			id := &ast.Ident{NamePos: pos, Name: ci.src.Name()}
+			info.Uses[id] = ci.src
+			return id, false
+		}
+	}
 	cl.repl = func(e ast.Expr) ast.Expr {
 		switch v := e.(type) {
+		case *ast.Ident:
+			if p, ok := info.Uses[v].(*types.Var); ok && cands[p] != nil && cands[p].kind == 4 {
+				t, _ := resolve(p, e.Pos(), 8)
+				return t
+			}
 		case *ast.StarExpr:
-			if p := local(v.X); p != nil && target[p] != nil {
+			if p := local(v.X); p != nil && cands[p] != nil {
 				if _, isId := ast.Unparen(v.X).(*ast.Ident); isId {
-					return moveTo(plain.clone(target[p]), e.Pos()).(ast.Expr)
+					t, isValue := resolve(p, e.Pos(), 8)
+					if isValue {
+						return t
+					}
+					ns := &ast.StarExpr{Star: v.Star, X: t}
+					if tv, ok := info.Types[v]; ok {
+						info.Types[ns] = tv
+					}
+					return ns
 				}
 			}
 		case *ast.SelectorExpr:
-			if p := local(v.X); p != nil && target[p] != nil {
+			if p := local(v.X); p != nil && cands[p] != nil {
 				if _, isId := ast.Unparen(v.X).(*ast.Ident); isId {
 					sel := &ast.Ident{NamePos: v.Sel.NamePos, Name: v.Sel.Name}
 					if o, ok := info.Uses[v.Sel]; ok {
 						info.Uses[sel] = o
 					}
-					ns := &ast.SelectorExpr{X: moveTo(plain.clone(target[p]), e.Pos()).(ast.Expr), Sel: sel}
+					t, _ := resolve(p, e.Pos(), 8)
+					ns := &ast.SelectorExpr{X: t, Sel: sel}
 					if tv, ok := info.Types[v]; ok {
 						info.Types[ns] = tv
 					}
@@ -171,10 +291,21 @@ func derefPointers(info *types.Info, body *ast.BlockStmt, onCopy func(old, new a
 		return nil
 	}
 	cl.stmts = func(s ast.Stmt) []ast.Stmt {
-		if p, ok := binding[s]; ok && target[p] != nil {
-			return []ast.Stmt{}
+		as, ok := s.(*ast.AssignStmt)
+		if !ok || len(as.Lhs) != 1 {
+			return nil
 		}
-		return nil
+		p := local(as.Lhs[0])
+		if p == nil || cands[p] == nil || cands[p].stmt != as {
+			return nil
+		}
+		if ci := cands[p]; ci.kind == 2 {
+			// the record itself: v := T{...}
+			id := &ast.Ident{NamePos: as.Lhs[0].Pos(), Name: ci.val.Name()}
+			info.Defs[id] = ci.val
+			return []ast.Stmt{&ast.AssignStmt{Lhs: []ast.Expr{id}, TokPos: as.TokPos, Tok: token.DEFINE, Rhs: []ast.Expr{cl.clone(ci.lit).(ast.Expr)}}}
+		}
+		return []ast.Stmt{}
 	}
 	nb := cl.clone(body).(*ast.BlockStmt)
 	cl.pairs = append(cl.pairs, plain.pairs...)
